@@ -168,8 +168,11 @@ structure Inv (c : Cache K V) : Prop where
   pos : 1 ≤ c.max
   soft_le : c.soft ≤ c.miss
 
+theorem Inv.initP (lru : Bool) (max : Nat) (om : Option (K → OmRes V)) (h : 1 ≤ max) :
+    Inv (Cache.initP lru max om) := ⟨Sync.nil, Nat.zero_le _, h, Nat.le_refl _⟩
+
 theorem Inv.init (lru : Bool) (max : Nat) (om : Option (K → V)) (h : 1 ≤ max) :
-    Inv (Cache.init lru max om) := ⟨Sync.nil, Nat.zero_le _, h, Nat.le_refl _⟩
+    Inv (Cache.init lru max om) := Inv.initP lru max _ h
 
 theorem eraseKey_head (e : K × V) (rest : List (K × V)) : eraseKey e.1 (e :: rest) = rest := by
   simp [eraseKey]
@@ -246,8 +249,11 @@ theorem Cache.getitem_inv {c : Cache K V} (h : Inv c) (k : K) : Inv (c.getitem k
     · exact h.sync
   · split
     · exact ⟨h.sync, h.cap, h.pos, Nat.le_succ_of_le h.soft_le⟩
-    · apply Cache.setitem_inv
-      exact ⟨h.sync, h.cap, h.pos, Nat.le_succ_of_le h.soft_le⟩
+    · split
+      · apply Cache.setitem_inv
+        exact ⟨h.sync, h.cap, h.pos, Nat.le_succ_of_le h.soft_le⟩
+      · exact ⟨h.sync, h.cap, h.pos, Nat.le_succ_of_le h.soft_le⟩
+      · exact ⟨h.sync, h.cap, h.pos, Nat.le_succ_of_le h.soft_le⟩
 
 theorem Cache.remove_inv {c : Cache K V} (h : Inv c) (k : K) : Inv (c.remove k) := by
   refine ⟨h.sync.remove k, ?_, h.pos, h.soft_le⟩
@@ -267,15 +273,31 @@ theorem Cache.update_inv {c : Cache K V} (h : Inv c) (e : Arg K V) (kw : List (K
   · exact h
   · exact Cache.setAll_inv (Cache.setAll_inv h _) _
 
-/-- getitem only ever answers keyError with a bumped miss counter (so get/setdefault may add a soft miss) -/
+/-- getitem answers keyError only for an absent key, with the miss counted and nothing else
+    but the on_miss log changed (so get/setdefault may add a soft miss) -/
 theorem Cache.getitem_keyError {c : Cache K V} {k : K} {c' : Cache K V}
-    (h : c.getitem k = (c', .keyError)) : c' = { c with miss := c.miss + 1 } ∧ lookup k c.ring = none ∧ c.onMiss = none := by
+    (h : c.getitem k = (c', .keyError)) :
+    c'.d = c.d ∧ c'.ring = c.ring ∧ c'.max = c.max ∧ c'.soft = c.soft ∧ c'.miss = c.miss + 1 ∧
+    c'.hit = c.hit ∧ c'.lru = c.lru ∧ c'.onMiss = c.onMiss ∧ lookup k c.ring = none := by
   unfold Cache.getitem at h
   split at h
   · simp at h
-  · split at h
-    · simp at h; exact ⟨h.symm, by assumption, by assumption⟩
-    · simp at h
+  · rename_i hk
+    split at h
+    · simp at h; subst h; exact ⟨rfl, rfl, rfl, rfl, rfl, rfl, rfl, rfl, hk⟩
+    · split at h
+      · simp at h
+      · simp at h; subst h; exact ⟨rfl, rfl, rfl, rfl, rfl, rfl, rfl, rfl, hk⟩
+      · simp at h
+
+theorem Inv.softBump {c c' : Cache K V} (h : Inv c) (hd : c'.d = c.d) (hr : c'.ring = c.ring)
+    (hm : c'.max = c.max) (hs : c'.soft = c.soft) (hmi : c'.miss = c.miss + 1) :
+    Inv ({ c' with soft := c'.soft + 1 } : Cache K V) := by
+  refine ⟨?_, ?_, ?_, ?_⟩
+  · show Sync c'.d c'.ring; rw [hd, hr]; exact h.sync
+  · show c'.d.length ≤ c'.max; rw [hd, hm]; exact h.cap
+  · show 1 ≤ c'.max; rw [hm]; exact h.pos
+  · show c'.soft + 1 ≤ c'.miss; rw [hs, hmi]; exact Nat.succ_le_succ h.soft_le
 
 variable [DecidableEq V]
 
@@ -288,18 +310,16 @@ theorem step_inv {c : Cache K V} (h : Inv c) (op : Op K V) : Inv (step c op).1 :
     simp only [step]
     split
     · rename_i c' hg
-      have := (Cache.getitem_keyError hg).1
-      subst this
-      exact ⟨h.sync, h.cap, h.pos, Nat.succ_le_succ h.soft_le⟩
+      have hh := Cache.getitem_keyError hg
+      exact h.softBump hh.1 hh.2.1 hh.2.2.1 hh.2.2.2.1 hh.2.2.2.2.1
     · exact Cache.getitem_inv h k
   | setdefault k dflt =>
     simp only [step]
     split
     · rename_i c' hg
-      have := (Cache.getitem_keyError hg).1
-      subst this
+      have hh := Cache.getitem_keyError hg
       apply Cache.setitem_inv
-      exact ⟨h.sync, h.cap, h.pos, Nat.succ_le_succ h.soft_le⟩
+      exact h.softBump hh.1 hh.2.1 hh.2.2.1 hh.2.2.2.1 hh.2.2.2.2.1
     · exact Cache.getitem_inv h k
   | update e kw => exact Cache.update_inv h e kw
   | ior e => exact Cache.update_inv h e []
